@@ -325,7 +325,42 @@ def main_wrapper(pid, run_fn):
     try:
         ctx.prove()
         run_fn(ctx)
+        # the code under /repo/src differs from the tree the checks were last validated against (anchors.json): somebody
+        # changed it, so before answering the quick tier explores further - the same generators under fresh seeds - until a
+        # violation shows or the budget is spent.  (On the unchanged tree nothing differs and nothing extra runs.)
+        if tier == 'quick' and replay is None and not ctx.violations:
+            drift = source_drift()
+            if drift:
+                ctx.notes.append(f'source drift against anchors.json: {drift[:8]}{" ..." if len(drift) > 8 else ""}')
+                budget = float(os.environ.get('VERIF_DRIFT_BUDGET_S', '150'))
+                for k in range(1, int(os.environ.get('VERIF_DRIFT_PASSES', '3')) + 1):
+                    if ctx.violations or time.time() - ctx.t0 > budget:
+                        break
+                    ctx.seed = seed + 1000 * k
+                    ctx.rng = random.Random(f'{pid}:{ctx.seed}')
+                    ctx.count('source_drift:extra_pass')
+                    run_fn(ctx)
+                ctx.seed = seed
     except Exception:
         tb = traceback.format_exc()
         ctx.report('harness', 'check crashed: ' + tb[-1500:], {'traceback': tb}, found_input=False)
     return ctx.finish()
+
+
+def source_drift():
+    """emsarray source files whose content differs from anchors.json (changed, added or removed)"""
+    import hashlib
+    try:
+        with open(f'{VERIF}/anchors.json') as f:
+            want = json.load(f)['files']
+    except (OSError, ValueError, KeyError):
+        return []
+    repo = os.environ.get('VERIF_REPO', '/repo')
+    have = {}
+    for root, _, names in os.walk(f'{repo}/src/emsarray'):
+        for n in names:
+            if n.endswith('.py'):
+                p = os.path.join(root, n)
+                with open(p, 'rb') as f:
+                    have[os.path.relpath(p, repo)] = hashlib.sha256(f.read()).hexdigest()
+    return sorted(k for k in set(want) | set(have) if want.get(k) != have.get(k))
